@@ -22,6 +22,7 @@ from . import c13
 
 CFG = c13.CFG.replace('RefKinds = {"sec"}', 'RefKinds = {"sec", "eq"}')
 BASE = 'http://example.org/base/'
+BASE2 = 'http://example.org/base/manual'        # a path and no trailing slash
 
 
 class Page(HTMLParser):
@@ -156,6 +157,9 @@ def replay_one(job):
         ov[('document', 'toc-non-files')] = True
     elif variant == 'baseurl':
         ov[('document', 'base-url')] = base = BASE
+    elif variant == 'baseurl2':
+        ov[('document', 'base-url')] = BASE2
+        base = BASE2 + '/'
     elif variant == 'minimal':
         ov[('general', 'theme')] = 'minimal'
     elif variant == 'xhtml':
@@ -194,7 +198,7 @@ def replay_one(job):
             bad.append(('ref-href:' + r['kind'], 'reference rr%d links to %s, specification %s %s' % (k + 1, m.group(1), want, ctx)))
         if m.group(2) != shown:
             bad.append(('ref-number:' + r['kind'], 'reference rr%d shows %r, the number of its target is %s %s' % (k + 1, m.group(2), shown, ctx)))
-    if variant in ('pure', 'baseurl', 'toc1', 'toc0', 'tocnonfiles', 'extras'):
+    if variant in ('pure', 'baseurl', 'baseurl2', 'toc1', 'toc0', 'tocnonfiles', 'extras'):
         nfiles = len(beh['files'])
         for j, f in enumerate(beh['files']):
             fn = c13.name_of(f['name']) + '.html'
@@ -211,7 +215,7 @@ def replay_one(job):
                 if rels.get(rel) != w:
                     bad.append(('nav:' + rel, '%s: rel=%s is %s, specification %s %s' % (fn, rel, rels.get(rel), w, ctx)))
     # the table of contents printed on every page (default theme): entries and order as the specification says
-    if renderer == 'HTML5' and variant in ('pure', 'rich', 'toc1', 'toc0', 'tocnonfiles', 'baseurl', 'extras'):
+    if renderer == 'HTML5' and variant in ('pure', 'rich', 'toc1', 'toc0', 'tocnonfiles', 'baseurl', 'baseurl2', 'extras'):
         depth = {'toc1': 1, 'toc0': 0}.get(variant, 3)
         t = beh['tocs'][depth]
         units = t['all'] if variant == 'tocnonfiles' else t['files']
@@ -280,7 +284,7 @@ def render(src, ov, renderer, listing):
         shutil.rmtree(d, ignore_errors=True)
 
 
-VARIANTS = ['rich', 'toc1', 'toc0', 'tocnonfiles', 'baseurl', 'minimal', 'xhtml']
+VARIANTS = ['rich', 'toc1', 'toc0', 'tocnonfiles', 'baseurl', 'baseurl2', 'minimal', 'xhtml']
 
 
 def run(chk):
